@@ -123,6 +123,7 @@ def expected_on(v, variants):
 
 def run(ctx):
     prog, chk = ctx.prog, ctx.check
+    c12.set_required(prog)
     chk.explanation = (
         "The same symbolic path summaries as C12, restricted to feasible paths that take the old vowel-sign order option: provenance of every "
         "assignment to the pending sign, extraction of the capture and restore maps from the paths' (condition, effect) pairs, the fusion leaves, and "
